@@ -1133,7 +1133,9 @@ func (f ForkId) forkId(buf *strings.Builder, start int) (bool, error) {
 					part.Id.GoString(),
 			}
 		} else if alen == 0 {
-			return forkIndex == 0, nil
+			// An empty part does not contribute to the ID, but the
+			// remaining parts still must, to keep the IDs distinct.
+			continue
 		}
 		if err := r.Allow(part.Id); err != nil {
 			return forkIndex == 0, err
